@@ -315,7 +315,7 @@ MUTANTS = [
     Mutant("finalize-targets-clean", "builder.py", in_function("Builder.finalize", replace_once("if len(self.workflow.targets) > 0 or len(self.workflow.target_dirs) > 0:", "if len(self.workflow.targets) > 0:")), ("R-C06-4",)),
     Mutant("finalize-noclean-ignored", "builder.py", in_function("Builder.finalize", replace_once("        elif not self.do_remove_outdated:", "        elif False:")), ("R-C06-4",)),
     Mutant("clean-selects-confirmed", "clean.py", replace_once("({FileState.BUILT.value}, {FileState.OUTDATED.value}, {FileState.VOLATILE.value})", "({FileState.BUILT.value}, {FileState.OUTDATED.value}, {FileState.VOLATILE.value}, {FileState.CONFIRMED.value})"), ("R-C06-5",)),
-    Mutant("clean-read-write", "clean.py", lambda t: None, ("R-C06-5",)),
+    Mutant("clean-read-write", "tool.py", in_function("connect_graph_db", replace_once("return connect(get_graph_db_path(), read_only=True)", "return connect(get_graph_db_path())")), ("R-C06-5",)),
     Mutant("delete-held", "trellis.py", in_function("Trellis.delete_detached", replace_once('                "NOT EXISTS (SELECT 1 FROM node AS cnode WHERE node.i = cnode.creator) AND "\n                "NOT EXISTS (SELECT 1 FROM dependency WHERE node.i = dependency.source)"', '                "NOT EXISTS (SELECT 1 FROM node AS cnode WHERE node.i = cnode.creator)"')), ("R-C06-6",)),
     Mutant("prune-used-tree-files", "workflow.py", in_function("Workflow.delete_detached", replace_once("                if not any(file.sinks()):\n                    file.detach()\n", "                file.detach()\n")), ("R-C06-6",)),
     Mutant("optional-queues-planned", "finalize.py", replace_once("IN ({FileState.VOLATILE.value}, {FileState.BUILT.value}, {FileState.OUTDATED.value})\n\"\"\"", "IN ({FileState.VOLATILE.value}, {FileState.BUILT.value}, {FileState.OUTDATED.value}, {FileState.CONFIRMED.value})\n\"\"\""), ("R-C06-2",)),
